@@ -8,6 +8,8 @@ import (
 	"github.com/deckhouse/deckhouse/pkg/log"
 	"k8s.io/apimachinery/pkg/apis/meta/v1/unstructured"
 
+	"github.com/flant/shell-operator/pkg/filter/jq"
+
 	kemtypes "github.com/flant/shell-operator/pkg/kube_events_manager/types"
 	"github.com/flant/shell-operator/pkg/metric"
 )
@@ -42,4 +44,13 @@ func (v *VerifInformer) VerifDump() (cache []string, buf []kemtypes.KubeEvent, e
 	sort.Strings(cache)
 	buf = append(buf, v.ei.eventBuf...)
 	return cache, buf, v.ei.eventCbEnabled
+}
+
+// VerifChecksum is the checksum the informer would store for obj (same filter, same configuration).
+func (v *VerifInformer) VerifChecksum(obj *unstructured.Unstructured) string {
+	res, err := applyFilter(v.ei.Monitor.JqFilter, jq.NewFilter(), v.ei.Monitor.FilterFunc, obj)
+	if err != nil {
+		return "error"
+	}
+	return res.Metadata.Checksum
 }
